@@ -234,3 +234,117 @@ void run_ctbatch(unsigned seed) {
         std::printf(" | ok\n");
     });
 }
+
+// permute / permutation inside larger expressions: R = permute<Idx>(A) + C,  C -= permutation<Idx>(A),
+// and assignment of the permuted tensor to a view of a larger tensor (rank 2: W(seq, seq) = permute<1,0>(A))
+template<typename T, int KIND, class Idx, size_t... D>
+void run_pexpr(unsigned seed) {
+    using namespace Fastor;
+    constexpr size_t N = sizeof...(D);
+    std::array<size_t,N> d = {D...}, p{}, q{};
+    for (size_t k = 0; k < N; ++k) { p[k] = Idx::values[k]; q[p[k]] = k; }
+    std::string ps, ds; for (size_t k = 0; k < N; ++k) { ps += (k ? "," : "") + std::to_string(p[k]); ds += (k ? "," : "") + std::to_string(d[k]); }
+    std::printf("pexpr cfg=%s%s std=%d T=%s kind=%s p=%s dims=%s seed=%u", CFGNAME, VR_TAG, VR_STD, vr::tname<T>::s(), KIND ? "legacy" : "new", ps.c_str(), ds.c_str(), seed);
+    vr::guarded([&]{
+        using TA = Tensor<T,D...>;
+        TA A; for (size_t k = 0; k < (size_t)A.size(); ++k) A.data()[k] = vr::mk<T>::at(k, seed);
+        auto P = vr::PCall<KIND,0>::template go<Idx>(A, A);
+        using RT = decltype(P);
+        RT C, R, S; for (size_t k = 0; k < (size_t)C.size(); ++k) { C.data()[k] = vr::mk<T>::at(k + 5, seed + 1); S.data()[k] = C.data()[k]; }
+        R = vr::PCall<KIND,0>::template go<Idx>(A, A) + C;
+        S -= vr::PCall<KIND,0>::template go<Idx>(A, A);
+        std::array<size_t,N> od{}; for (size_t k = 0; k < N; ++k) od[k] = get_tensor_dimensions<RT>::dims[k];
+        const std::array<size_t,N>& use = KIND ? q : p;
+        std::array<size_t,N> i{};
+        while (true) {
+            size_t fa = 0, fo = 0;
+            for (size_t k = 0; k < N; ++k) { fa = fa * d[k] + i[k]; fo = fo * od[k] + i[use[k]]; }
+            if (!vr::same(R.data()[fo], (T)(A.data()[fa] + C.data()[fo]))) { std::printf(" | FAIL permute(A)+C at result offset %zu\n", fo); return; }
+            if (!vr::same(S.data()[fo], (T)(C.data()[fo] - A.data()[fa]))) { std::printf(" | FAIL C -= permute(A) at result offset %zu\n", fo); return; }
+            int k = (int)N - 1;
+            for (; k >= 0; --k) { if (++i[k] < d[k]) break; i[k] = 0; }
+            if (k < 0) break;
+        }
+        std::printf(" | ok\n");
+    });
+}
+template<typename T, size_t M, size_t N>
+void run_pview(unsigned seed) {
+    using namespace Fastor;
+    std::printf("pview cfg=%s%s std=%d T=%s M=%zu N=%zu seed=%u", CFGNAME, VR_TAG, VR_STD, vr::tname<T>::s(), M, N, seed);
+    vr::guarded([&]{
+        Tensor<T,M,N> A; for (size_t k = 0; k < M * N; ++k) A.data()[k] = vr::mk<T>::at(k, seed);
+        Tensor<T,N+2,M+3> W; for (size_t k = 0; k < (N+2)*(M+3); ++k) W.data()[k] = vr::mk<T>::at(k + 9, seed + 4);
+        Tensor<T,N+2,M+3> W0 = W;
+        W(seq(1, N + 1), seq(2, M + 2)) = permute<Index<1,0>>(A);
+        for (size_t r = 0; r < N + 2; ++r) for (size_t c = 0; c < M + 3; ++c) {
+            bool in = r >= 1 && r < N + 1 && c >= 2 && c < M + 2;
+            T want = in ? A.data()[(c - 2) * N + (r - 1)] : W0.data()[r * (M + 3) + c];
+            if (!vr::same(W.data()[r * (M + 3) + c], want)) { std::printf(" | FAIL view cell (%zu,%zu)\n", r, c); return; }
+        }
+        std::printf(" | ok\n");
+    });
+}
+// transposition of the last two (equal) extents of a rank-4 tensor
+template<typename T, size_t B0, size_t B1, size_t J>
+void run_tbatch4(unsigned seed) {
+    using namespace Fastor;
+    std::printf("tbatch4 cfg=%s%s std=%d T=%s B=%zux%zu J=%zu seed=%u", CFGNAME, VR_TAG, VR_STD, vr::tname<T>::s(), B0, B1, J, seed);
+    vr::guarded([&]{
+        Tensor<T,B0,B1,J,J> A;
+        for (size_t k = 0; k < B0 * B1 * J * J; ++k) A.data()[k] = vr::mk<T>::at(k, seed);
+        Tensor<T,B0,B1,J,J> R = transpose(A);
+        for (size_t b = 0; b < B0 * B1; ++b) for (size_t i = 0; i < J; ++i) for (size_t j = 0; j < J; ++j)
+            if (!vr::same(R.data()[b*J*J + j*J + i], A.data()[b*J*J + i*J + j])) { std::printf(" | FAIL block %zu (%zu,%zu)\n", b, j, i); return; }
+        std::printf(" | ok\n");
+    });
+}
+#if FASTOR_CXX_VERSION >= 2017
+// einsum with an explicit output index (C++17 only) ends with permute<permute_mapped_index_t<resulting, OIndex>>:
+//  (1) a pure relabelling of one tensor: out axis n is the input axis carrying the label O[n];
+//  (2) a matrix product delivered transposed: einsum<Index<I,J>,Index<J,K>,OIndex<K,I>>(A,B) = (A*B)^T
+template<typename T, class IdxI, class IdxO, size_t... D>
+void run_einsum_o1(unsigned seed) {
+    using namespace Fastor;
+    constexpr size_t N = sizeof...(D);
+    std::array<size_t,N> d = {D...}, li{}, lo{}, src{};
+    for (size_t k = 0; k < N; ++k) { li[k] = IdxI::values[k]; lo[k] = IdxO::values[k]; }
+    for (size_t n = 0; n < N; ++n) for (size_t k = 0; k < N; ++k) if (li[k] == lo[n]) src[n] = k;   // out axis n = in axis src[n]
+    std::string a, b, ds; for (size_t k = 0; k < N; ++k) { a += (k ? "," : "") + std::to_string(li[k]); b += (k ? "," : "") + std::to_string(lo[k]); ds += (k ? "," : "") + std::to_string(d[k]); }
+    std::printf("einsum_o1 cfg=%s%s std=%d T=%s I=%s O=%s dims=%s seed=%u", CFGNAME, VR_TAG, VR_STD, vr::tname<T>::s(), a.c_str(), b.c_str(), ds.c_str(), seed);
+    vr::guarded([&]{
+        Tensor<T,D...> A; for (size_t k = 0; k < (size_t)A.size(); ++k) A.data()[k] = vr::mk<T>::at(k, seed);
+        auto R = einsum<IdxI,IdxO>(A);
+        using RT = decltype(R);
+        std::array<size_t,N> od{}; for (size_t k = 0; k < N; ++k) od[k] = get_tensor_dimensions<RT>::dims[k];
+        for (size_t n = 0; n < N; ++n) if (od[n] != d[src[n]]) { std::printf(" | FAIL extent %zu is %zu, expected %zu\n", n, od[n], d[src[n]]); return; }
+        std::array<size_t,N> i{};
+        while (true) {
+            size_t fa = 0, fo = 0;
+            for (size_t k = 0; k < N; ++k) { fa = fa * d[k] + i[k]; fo = fo * od[k] + i[src[k]]; }
+            if (!vr::same(R.data()[fo], A.data()[fa])) { std::printf(" | FAIL result offset %zu (source offset %zu)\n", fo, fa); return; }
+            int k = (int)N - 1;
+            for (; k >= 0; --k) { if (++i[k] < d[k]) break; i[k] = 0; }
+            if (k < 0) break;
+        }
+        std::printf(" | ok\n");
+    });
+}
+template<typename T, size_t M, size_t K, size_t N>
+void run_einsum_o2(unsigned seed) {
+    using namespace Fastor;
+    std::printf("einsum_o2 cfg=%s%s std=%d T=%s M=%zu K=%zu N=%zu seed=%u", CFGNAME, VR_TAG, VR_STD, vr::tname<T>::s(), M, K, N, seed);
+    vr::guarded([&]{
+        Tensor<T,M,K> A; Tensor<T,K,N> B;
+        for (size_t k = 0; k < M * K; ++k) A.data()[k] = (T)(long)((k * 7 + seed) % 9) - (T)4;
+        for (size_t k = 0; k < K * N; ++k) B.data()[k] = (T)(long)((k * 5 + seed) % 7) - (T)3;
+        enum {I_ = 3, J_ = 7, K_ = 5};
+        Tensor<T,N,M> R = einsum<Index<I_,J_>,Index<J_,K_>,OIndex<K_,I_>>(A, B);
+        for (size_t i = 0; i < M; ++i) for (size_t j = 0; j < N; ++j) {
+            T acc = T(0); for (size_t k = 0; k < K; ++k) acc += A.data()[i*K+k] * B.data()[k*N+j];
+            if (R.data()[j*M+i] != acc) { std::printf(" | FAIL result(%zu,%zu)\n", j, i); return; }
+        }
+        std::printf(" | ok\n");
+    });
+}
+#endif
